@@ -12,6 +12,11 @@ Ltac bind_inv' H :=
   | bind ?r _ = Ok _ => let x := fresh "x" in let E := fresh "E" in destruct r as [x|] eqn:E; cbn [bind] in H; [|discriminate]
   end.
 
+Ltac bind_inv2 H x E :=
+  match type of H with
+  | bind ?r _ = Ok _ => destruct r as [x|] eqn:E; cbn [bind] in H; [|discriminate]
+  end.
+
 (* ------------------------------------------------------------------ what the invariant can see of a state *)
 Definition obs_eq (s s' : state) : Prop :=
   (forall e sd, oid_of s' e sd = oid_of s e sd) /\ (forall e sd, path_of s' e sd = path_of s e sd) /\
@@ -290,4 +295,272 @@ Proof.
     destruct (Bool.eqb sd' sd); [reflexivity|rewrite Hn; reflexivity].
   - destruct sd'; reflexivity.
   - unfold slot_get. destruct sd'; reflexivity.
+Qed.
+
+Lemma get_ent_nth s e en : nth_error (ents s) e = Some en -> get_ent s e = Ok en.
+Proof. unfold get_ent. intros ->. reflexivity. Qed.
+
+(* updated(side, "oid", None) on an entry without an id: nothing to remove *)
+Lemma exec_oid_none_noid E f fin e sd s s' :
+  oid_of s e sd = None -> exec E f (COid fin e sd None) s = Ok s' -> iview s' = iview s.
+Proof.
+  intros Ho H. destruct f as [|f]; [discriminate|]. rewrite exec_oid_eq in H. bind_inv' H. bind_inv' H.
+  apply get_ent_ok in E0.
+  assert (Hx: s_oid (gs x sd) = None) by (unfold oid_of in Ho; rewrite E0 in Ho; exact Ho).
+  rewrite Hx in E1. unfold oid_loop in E1. cbn [ostr_eqb] in E1. rewrite oid_step_none in E1. injection E1 as <-.
+  unfold oid_finish in H. rewrite (get_ent_nth _ _ _ E0) in H. cbn [bind] in H. cbv zeta in H. injection H as <-.
+  destruct fin.
+  - rewrite (iview_raw_side_at _ _ _ _ x).
+    + destruct (_ && _)%bool; reflexivity.
+    + destruct (_ && _)%bool; exact E0.
+    + simpl. symmetry. exact Hx.
+    + reflexivity.
+  - destruct (_ && _)%bool; reflexivity.
+Qed.
+
+Lemma oid_finish_none_gen fin e sd s1 s' : oid_finish fin e sd None s1 = Ok s' ->
+  (forall sd', oids s' sd' = oids s1 sd') /\ (forall sd' p o, slot_get s' sd' p o = slot_get s1 sd' p o) /\
+  (forall e' sd', oid_of s' e' sd' = if fin && Nat.eqb e' e && Bool.eqb sd' sd then None else oid_of s1 e' sd') /\
+  (forall e' sd', path_of s' e' sd' = path_of s1 e' sd').
+Proof.
+  destruct fin; [apply oid_finish_none|]. unfold oid_finish. intros H. bind_inv' H. cbv zeta in H. injection H as <-.
+  assert (Hv: iview (dirty_add (if (tchg (s_chg (gs x sd)) && negb (tchg (s_chg (gs x (negb sd)))))%bool then cs_del s1 e else s1) e) = iview s1)
+    by (destruct (_ && _)%bool; reflexivity).
+  apply iview_eq in Hv as [He [Ho Hp]]. cbn [andb]. repeat split.
+  - exact Ho.
+  - intros sd' p o. apply slot_get_paths. apply Hp.
+  - intros e' sd'. apply (proj1 (He e' sd')).
+  - intros e' sd'. apply (proj2 (He e' sd')).
+Qed.
+
+(* updated(side, "oid", None) on an entry that is found under its id o: the id and the entry's slot go *)
+Lemma exec_oid_none_self E f fin e sd s s' o :
+  oid_of s e sd = Some o -> al_get o (oids s sd) = Some e ->
+  exec E f (COid fin e sd None) s = Ok s' ->
+  (forall x sd', oid_of s' x sd' = if fin && Nat.eqb x e && Bool.eqb sd' sd then None else oid_of s x sd') /\
+  (forall x sd', path_of s' x sd' = path_of s x sd') /\
+  (forall sd' k, al_get k (oids s' sd') = if Bool.eqb sd' sd && str_eqb k o then None else al_get k (oids s sd')) /\
+  (forall sd' p k, slot_get s' sd' p k = slot_get s sd' p k \/ (sd' = sd /\ k = o /\ slot_get s' sd' p k = None)) /\
+  (forall p, path_of s e sd = Some p -> p <> [] -> slot_get s' sd p o = None).
+Proof.
+  intros Ho Hidx H. destruct f as [|f]; [discriminate|]. rewrite exec_oid_eq in H.
+  destruct (oid_of_some_ent _ _ _ _ Ho) as [en [Hen Hoe]]. rewrite Hen in H. cbn [bind] in H. rewrite Hoe in H.
+  bind_inv' H. rename x into s1.
+  unfold oid_loop in E0. cbn [ostr_eqb] in E0. unfold pop_swap in E0.
+  destruct (tape s) as [|[b|l] r]; try discriminate. cbn [bind] in E0.
+  set (s0 := st_tape s r) in *.
+  assert (Hst: oid_step (exec E f) e sd (Some o) s0 = Ok s1).
+  { destruct b.
+    - rewrite oid_step_none in E0. cbn [bind] in E0. exact E0.
+    - destruct (oid_step (exec E f) e sd (Some o) s0) as [y|] eqn:Ey; cbn [bind] in E0; [|discriminate].
+      rewrite oid_step_none in E0. exact E0. }
+  clear E0. unfold oid_step in Hst.
+  assert (Ho0: oids s0 sd = oids s sd) by (destruct sd; reflexivity).
+  rewrite Ho0, Hidx in Hst.
+  assert (Hen1: get_ent (st_oids s0 sd (al_del o (oids s sd))) e = Ok en).
+  { unfold get_ent in *. rewrite ents_st_oids. exact Hen. }
+  rewrite Hen1 in Hst. cbn [bind] in Hst. rewrite Nat.eqb_refl in Hst. injection Hst as Hs1.
+  apply get_ent_ok in Hen.
+  assert (Hpe: path_of s e sd = s_path (gs en sd)) by (unfold path_of; rewrite Hen; reflexivity).
+  set (sq := st_oids s0 sd (al_del o (oids s sd))) in *.
+  assert (He1: ents s1 = ents s).
+  { rewrite <- Hs1. destruct (s_path (gs en sd)) as [[|c pp]|]; [|rewrite ents_slot_pop|]; unfold sq; rewrite ents_st_oids; reflexivity. }
+  assert (HO1: forall sd' k, al_get k (oids s1 sd') = if Bool.eqb sd' sd && str_eqb k o then None else al_get k (oids s sd')).
+  { intros sd' k. assert (Hx: oids s1 sd' = oids sq sd').
+    { rewrite <- Hs1. destruct (s_path (gs en sd)) as [[|c pp]|]; [|apply oids_slot_pop|]; reflexivity. }
+    rewrite Hx. unfold sq. rewrite oids_st_oids. destruct (Bool.eqb sd' sd) eqn:Es; cbn [andb].
+    - apply Bool.eqb_prop in Es. subst sd'. rewrite al_get_del. reflexivity.
+    - destruct sd'; reflexivity. }
+  assert (Hsq: forall sd' p k, slot_get sq sd' p k = slot_get s sd' p k).
+  { intros. unfold sq. rewrite slot_get_st_oids. unfold slot_get. destruct sd'; reflexivity. }
+  assert (HP1: forall sd' p k, slot_get s1 sd' p k = slot_get s sd' p k \/ (sd' = sd /\ k = o /\ slot_get s1 sd' p k = None)).
+  { intros sd' p k. rewrite <- Hs1. destruct (s_path (gs en sd)) as [[|c pp]|]; [left; apply Hsq| |left; apply Hsq].
+    rewrite slot_get_slot_pop, Hsq.
+    destruct (Bool.eqb sd' sd && str_eqb p (c :: pp) && str_eqb k o)%bool eqn:Ec; [|left; reflexivity].
+    right. apply andb_prop in Ec as [Ec Ek]. apply andb_prop in Ec as [Es _].
+    apply Bool.eqb_prop in Es. apply str_eqb_eq in Ek. repeat split; assumption. }
+  assert (HP1b: forall p, path_of s e sd = Some p -> p <> [] -> slot_get s1 sd p o = None).
+  { intros p Hp Hpn. rewrite Hpe in Hp. rewrite <- Hs1, Hp. destruct p as [|c p]; [contradiction|].
+    rewrite slot_get_slot_pop, bool_eqb_refl, !str_eqb_refl. reflexivity. }
+  apply oid_finish_none_gen in H as [F1 [F2 [F3 F4]]].
+  split; [|split; [|split; [|split]]].
+  - intros x sd'. rewrite F3. destruct (fin && Nat.eqb x e && Bool.eqb sd' sd)%bool; [reflexivity|]. unfold oid_of. rewrite He1. reflexivity.
+  - intros x sd'. rewrite F4. unfold path_of. rewrite He1. reflexivity.
+  - intros sd' k. rewrite F1. apply HO1.
+  - intros sd' p k. rewrite F2. apply HP1.
+  - intros p Hp Hpn. rewrite F2. apply HP1b; assumption.
+Qed.
+
+(* abstractly: entry d gives up its id o *)
+Lemma idx_unindex u t d sd o :
+  IdxJ u -> oid_of u d sd = Some o ->
+  (forall x sd', oid_of t x sd' = if Nat.eqb x d && Bool.eqb sd' sd then None else oid_of u x sd') ->
+  (forall x sd', path_of t x sd' = path_of u x sd') ->
+  (forall sd' k, al_get k (oids t sd') = if Bool.eqb sd' sd && str_eqb k o then None else al_get k (oids u sd')) ->
+  (forall sd' p k, slot_get t sd' p k = slot_get u sd' p k \/ (sd' = sd /\ k = o /\ slot_get t sd' p k = None)) ->
+  (forall p, path_of u d sd = Some p -> p <> [] -> slot_get t sd p o = None) ->
+  IdxJ t.
+Proof.
+  intros [Hf [Hso Hsp]] Hod Hoid Hpath HO HP HPd.
+  assert (Huniq: forall x, oid_of u x sd = Some o -> x = d).
+  { intros x Hx. destruct (Hf _ _ _ Hx) as [Ha _]. destruct (Hf _ _ _ Hod) as [Hb _]. congruence. }
+  split; [|split].
+  - intros x sd' k Hk. rewrite Hoid in Hk.
+    destruct (Nat.eqb x d && Bool.eqb sd' sd)%bool eqn:Ec; [discriminate|].
+    assert (Hn: ~ (sd' = sd /\ k = o)).
+    { intros [-> ->]. apply Huniq in Hk. subst x. rewrite Nat.eqb_refl, bool_eqb_refl in Ec. discriminate. }
+    destruct (Hf _ _ _ Hk) as [Ha Hb]. split.
+    + rewrite HO. destruct (Bool.eqb_spec sd' sd) as [->|]; cbn [andb]; [|exact Ha].
+      destruct (str_eqb_spec k o) as [->|]; [exfalso; apply Hn; split; reflexivity|exact Ha].
+    + intros p Hp Hpn. rewrite Hpath in Hp. destruct (HP sd' p k) as [He|[Hs [Hk' _]]].
+      * rewrite He. apply Hb; assumption.
+      * exfalso. apply Hn. split; assumption.
+  - intros sd' k z Hz. rewrite HO in Hz. rewrite Hoid.
+    destruct (Bool.eqb sd' sd && str_eqb k o)%bool eqn:Ec; [discriminate|].
+    pose proof (Hso _ _ _ Hz) as Hoz.
+    destruct (Nat.eqb_spec z d) as [->|]; cbn [andb]; [|exact Hoz].
+    destruct (Bool.eqb_spec sd' sd) as [->|]; [|exact Hoz].
+    exfalso. rewrite Hod in Hoz. injection Hoz as <-. rewrite ?bool_eqb_refl, str_eqb_refl in Ec. discriminate.
+  - intros sd' p k z Hz. destruct (HP sd' p k) as [He|[_ [_ Hn]]]; [|congruence].
+    rewrite He in Hz. destruct (Hsp _ _ _ _ Hz) as [Ha [Hb Hc]]. rewrite Hoid, Hpath.
+    destruct (Nat.eqb_spec z d) as [->|]; cbn [andb]; [|split; [exact Ha|split; [exact Hb|exact Hc]]].
+    destruct (Bool.eqb_spec sd' sd) as [->|]; [|split; [exact Ha|split; [exact Hb|exact Hc]]].
+    exfalso. rewrite Hod in Ha. injection Ha as <-. rewrite (HPd _ Hb Hc) in He. rewrite <- He in Hz. discriminate.
+Qed.
+
+Lemma iview_len s s' : iview s = iview s' -> length (ents s) = length (ents s').
+Proof.
+  unfold iview. intros H. injection H as H _ _ _ _. apply (f_equal (@length _)) in H. rewrite !map_length in H. exact H.
+Qed.
+Lemma iview_nth_some s s' e en : iview s = iview s' -> nth_error (ents s) e = Some en -> nth_error (ents s') e <> None.
+Proof.
+  intros Hv Hn Hc. apply nth_error_None in Hc. rewrite <- (iview_len _ _ Hv) in Hc.
+  assert (e < length (ents s)) by (apply nth_error_Some; rewrite Hn; discriminate). lia.
+Qed.
+
+(* ------------------------------------------------------------------ SyncEntry.__setitem__: dst[side] = src[side] *)
+(* the guard: if dst is a folder that already has a path on that side, the incoming path is not strictly
+   below it and, when an id comes along, the side does not take its ids from the provider (oid_is_path):
+   there a child re-keyed by _update_kids can take the incoming id, which __setitem__ then writes back *)
+Definition mv_guardb (E : env) (s : state) (dst src : eid) (sd : bool) : bool :=
+  Nat.eqb dst src ||
+  match nth_error (ents s) dst with
+  | None => true
+  | Some en =>
+    match s_otype (gs en sd), s_path (gs en sd) with
+    | Dir, Some pp =>
+        (match path_of s src sd with Some p => negb (belowb (cvs E sd) pp p) | None => true end) &&
+        (match oid_of s src sd with Some _ => negb (oip E sd) | None => true end)
+    | _, _ => true
+    end
+  end.
+
+Lemma move_side_pres E s dst src sd s' :
+  env_ok E -> IdxJ s -> mv_guardb E s dst src sd = true -> move_side E s dst src sd = Ok s' -> IdxJ s'.
+Proof.
+  intros HE HJ Hg H. pose proof HE as [Hl Hok]. unfold move_side in H.
+  bind_inv' H. rename x into sn. bind_inv' H. rename x into s1. bind_inv' H. rename x into s2.
+  bind_inv' H. rename x into sn2. bind_inv' H. rename x into s3. bind_inv' H. rename x into s4.
+  bind_inv' H. rename x into dn. injection H as <-.
+  apply get_ent_ok in E0.
+  assert (Hsp: path_of s src sd = s_path (gs sn sd)) by (unfold path_of; rewrite E0; reflexivity).
+  assert (Hso: oid_of s src sd = s_oid (gs sn sd)) by (unfold oid_of; rewrite E0; reflexivity).
+  set (np := s_path (gs sn sd)) in *. set (no := s_oid (gs sn sd)) in *.
+  set (val := w_oid (w_path (gs sn2 sd) np) no) in *.
+  (* the source side is taken out *)
+  assert (HJ1: IdxJ s1).
+  { eapply set_path_pres; [exact HE|exact HJ| |exact E1]. unfold path_guardb. destruct (nth_error (ents s) src); reflexivity. }
+  destruct (exec_path_falsy_frame E _ true src sd None s s1 eq_refl E1) as [P1 [T1 _]].
+  assert (HJ2: IdxJ s2) by (eapply set_oid_pres; eassumption).
+  assert (Hpv2: pview s2 = pview s1) by (unfold set_oid, run_cmd in E2; eapply exec_oid_pview; exact E2).
+  assert (P2: forall x sd', path_of s2 x sd' = if Nat.eqb x src && Bool.eqb sd' sd then None else path_of s x sd').
+  { intros. rewrite (proj1 (pview_eq _ _ Hpv2 x sd')), P1. reflexivity. }
+  assert (T2: forall x sd', otype_of s2 x sd' = otype_of s x sd').
+  { intros. rewrite (proj2 (pview_eq _ _ Hpv2 x sd')). apply T1. }
+  (* the guard, for dst in any later state with the same paths and types *)
+  assert (HG: forall t en, (forall x sd', path_of t x sd' = path_of s2 x sd') ->
+              (forall x sd', otype_of t x sd' = otype_of s2 x sd') -> get_ent t dst = Ok en ->
+              gd E sd (s_otype (gs en sd)) (s_path (gs en sd)) np /\
+              (no <> None -> oip E sd = false \/ s_otype (gs en sd) <> Dir \/ s_path (gs en sd) = None)).
+  { intros t en Hp Ht Hen. apply get_ent_ok in Hen.
+    assert (Hpa: s_path (gs en sd) = path_of s2 dst sd) by (rewrite <- Hp; unfold path_of; rewrite Hen; reflexivity).
+    assert (Hta: Some (s_otype (gs en sd)) = otype_of s dst sd) by (rewrite <- T2, <- Ht; unfold otype_of; rewrite Hen; reflexivity).
+    rewrite P2 in Hpa. destruct (Nat.eqb_spec dst src) as [Heq|Hneq].
+    - rewrite bool_eqb_refl in Hpa. cbn in Hpa. split; [intros _ qq p Hq; rewrite Hpa in Hq; discriminate|intros _; right; right; exact Hpa].
+    - cbn [andb] in Hpa. unfold mv_guardb in Hg. destruct (Nat.eqb_spec dst src); [contradiction|]. cbn [orb] in Hg.
+      unfold otype_of in Hta. unfold path_of in Hpa. destruct (nth_error (ents s) dst) as [ens|]; [|discriminate].
+      injection Hta as Hta. rewrite Hta, Hpa.
+      destruct (s_otype (gs ens sd)); try (split; [intros Hd; discriminate|intros _; right; left; discriminate]).
+      destruct (s_path (gs ens sd)) as [pp|]; [|split; [intros _ qq p Hq; discriminate|intros _; right; right; reflexivity]].
+      apply andb_prop in Hg as [Hg1 Hg2]. split.
+      + intros _ qq p Hq Hp' Hb. injection Hq as <-. rewrite Hsp, Hp' in Hg1. apply belowb_spec in Hb. rewrite Hb in Hg1. discriminate.
+      + intros Hno. left. rewrite Hso in Hg2. destruct no; [|contradiction]. apply negb_true_iff in Hg2. exact Hg2. }
+  (* the last two steps: the flag, and the replacement of the whole side *)
+  unfold run_cmd in E5. apply exec_flag_view in E5 as [Hv4 _]; [|reflexivity].
+  apply get_ent_ok in E6.
+  pose proof (put_side_obs s4 dst sd dn val E6) as [Ot [Pt [OOt PPt]]]. cbv zeta in Ot, Pt, OOt, PPt.
+  change (s_oid val) with no in Ot. change (s_path val) with np in Pt.
+  destruct (iview_eq _ _ Hv4) as [He4 [Ho4 Hp4]].
+  assert (Hn3: nth_error (ents s3) dst <> None) by (apply (iview_nth_some s4 s3 dst dn); [exact Hv4|exact E6]).
+  destruct no as [o|] eqn:Eno.
+  - (* an id comes along: id first, then path *)
+    bind_inv2 E4 sa E7. unfold run_cmd in E7, E4.
+    pose proof (exec_oid_false_some_pres _ _ _ _ _ _ _ HJ2 E7) as HJa.
+    pose proof (exec_oid_false_some _ _ _ _ _ _ _ E7) as Hoa.
+    pose proof (exec_oid_pview _ _ _ _ _ _ _ _ E7) as Hpva.
+    destruct (oid_of_some_ent _ _ _ _ Hoa) as [ena [Hena _]].
+    destruct (HG sa ena (fun x sd' => proj1 (pview_eq _ _ Hpva x sd')) (fun x sd' => proj2 (pview_eq _ _ Hpva x sd')) Hena) as [Hgd Hkeep].
+    destruct (exec_path_false_pres E Hl Hok _ _ _ _ _ _ _ HJa Hena Hgd E4) as [A [_ [_ D]]].
+    specialize (D (Hkeep ltac:(discriminate))).
+    apply (IdxJ_obs (raw_side s3 dst sd (fun y => w_path y np))); [|exact A].
+    split; [|split; [|split]].
+    + intros x sd'. rewrite Ot, D.
+      destruct (Nat.eqb_spec x dst) as [->|]; cbn [andb]; [|rewrite (proj1 (He4 x sd')), <- D, oid_of_raw_side; destruct (Nat.eqb_spec x dst); [contradiction|reflexivity]].
+      destruct (Bool.eqb_spec sd' sd) as [->|Hns]; [symmetry; exact Hoa|].
+      rewrite (proj1 (He4 dst sd')), <- D, oid_of_raw_side. destruct (Bool.eqb_spec sd' sd); [contradiction|rewrite andb_false_r; reflexivity].
+    + intros x sd'. rewrite Pt, path_of_raw_side. destruct (nth_error (ents s3) dst) as [en3|]; [|contradiction].
+      destruct (Nat.eqb x dst && Bool.eqb sd' sd)%bool; [reflexivity|apply (proj2 (He4 x sd'))].
+    + intros sd' k. rewrite OOt, oids_raw_side, Ho4. reflexivity.
+    + intros sd' p k. rewrite PPt, slot_get_raw_side. apply slot_get_paths. apply Hp4.
+  - (* no id: path first, then the removal of dst's own id *)
+    bind_inv2 E4 sa E7. unfold run_cmd in E7, E4.
+    destruct (get_ent s2 dst) as [en2|] eqn:Hen2.
+    2:{ destruct (fuel_of s2); [discriminate|]. simpl in E7. rewrite Hen2 in E7. discriminate. }
+    destruct (HG s2 en2 (fun _ _ => eq_refl) (fun _ _ => eq_refl) Hen2) as [Hgd _].
+    destruct (exec_path_false_pres E Hl Hok _ _ _ _ _ _ _ HJ2 Hen2 Hgd E7) as [A [_ [C _]]].
+    set (u := raw_side sa dst sd (fun y => w_path y np)) in *.
+    assert (Hna: nth_error (ents sa) dst <> None).
+    { intros Hc. destruct (fuel_of sa); [discriminate|]. simpl in E4. unfold get_ent in E4. rewrite Hc in E4. discriminate. }
+    assert (Uo: forall x sd', oid_of u x sd' = oid_of sa x sd').
+    { intros. unfold u. rewrite oid_of_raw_side. destruct (Nat.eqb_spec x dst) as [->|]; cbn [andb]; [|reflexivity].
+      destruct (Bool.eqb_spec sd' sd) as [->|]; [|reflexivity]. unfold oid_of. destruct (nth_error (ents sa) dst); reflexivity. }
+    assert (Up: forall x sd', path_of u x sd' = if Nat.eqb x dst && Bool.eqb sd' sd then np else path_of sa x sd').
+    { intros. unfold u. rewrite path_of_raw_side. destruct (nth_error (ents sa) dst); [reflexivity|contradiction]. }
+    assert (UO: forall sd' k, al_get k (oids u sd') = al_get k (oids sa sd')) by (intros; unfold u; rewrite oids_raw_side; reflexivity).
+    assert (UP: forall sd' p k, slot_get u sd' p k = slot_get sa sd' p k) by (intros; unfold u; apply slot_get_raw_side).
+    destruct (oid_of sa dst sd) as [o|] eqn:Eod.
+    + (* dst owned an id *)
+      assert (Hidx: al_get o (oids sa sd) = Some dst).
+      { rewrite <- UO. apply (proj1 A dst sd o). rewrite Uo. exact Eod. }
+      destruct (exec_oid_none_self _ _ _ _ _ _ _ _ Eod Hidx E4) as [F1 [F2 [F3 [F4 F5]]]]. cbn [andb] in F1.
+      apply (idx_unindex u _ dst sd o A); [rewrite Uo; exact Eod| | | | |].
+      * intros x sd'. rewrite Ot. destruct (Nat.eqb x dst && Bool.eqb sd' sd)%bool; [reflexivity|].
+        rewrite (proj1 (He4 x sd')), F1, Uo. reflexivity.
+      * intros x sd'. rewrite Pt, Up. destruct (Nat.eqb x dst && Bool.eqb sd' sd)%bool; [reflexivity|].
+        rewrite (proj2 (He4 x sd')), F2. reflexivity.
+      * intros sd' k. rewrite OOt, Ho4, F3, UO. reflexivity.
+      * intros sd' p k. rewrite PPt, (slot_get_paths s4 s3 sd' (Hp4 sd')), UP. apply F4.
+      * intros p Hp Hpn. rewrite PPt, (slot_get_paths s4 s3 sd (Hp4 sd)). apply F5; [|exact Hpn].
+        rewrite Up, Nat.eqb_refl, bool_eqb_refl in Hp. cbn [andb] in Hp.
+        rewrite <- Hp. apply C. rewrite Hp. destruct p; [contradiction|reflexivity].
+    + (* dst had no id *)
+      pose proof (exec_oid_none_noid _ _ _ _ _ _ _ Eod E4) as Hv3.
+      destruct (iview_eq _ _ Hv3) as [He3 [Ho3 Hp3]].
+      apply (IdxJ_obs u); [|exact A]. split; [|split; [|split]].
+      * intros x sd'. rewrite Ot, Uo. destruct (Nat.eqb_spec x dst) as [->|]; cbn [andb]; [|rewrite (proj1 (He4 x sd')); apply (proj1 (He3 x sd'))].
+        destruct (Bool.eqb_spec sd' sd) as [->|]; [symmetry; exact Eod|rewrite (proj1 (He4 dst sd')); apply (proj1 (He3 dst sd'))].
+      * intros x sd'. rewrite Pt, Up. destruct (Nat.eqb x dst && Bool.eqb sd' sd)%bool; [reflexivity|].
+        rewrite (proj2 (He4 x sd')). apply (proj2 (He3 x sd')).
+      * intros sd' k. rewrite OOt, Ho4, Ho3, UO. reflexivity.
+      * intros sd' p k. rewrite PPt, UP, (slot_get_paths s4 s3 sd' (Hp4 sd')). apply slot_get_paths. apply Hp3.
 Qed.
